@@ -93,7 +93,13 @@ def generate(rng, tier):
                 data = [float(rng.randint(-64, 64)) for _ in es]
             k = rng.choice([1, 1, 2, 3, npts, rng.randint(1, npts)])
             k = min(k, npts)
-            cs.append(mk_knn(es, ns, data, k, rng.choice(list(REDS)), qe, qn, shape2d, "knn"))
+            kind = "knn"
+            if rng.random() < 0.3:      # some query points ARE data points (a grid node on a station, predicting back at the data)
+                for j in range(min(len(qe), rng.randint(1, 3))):
+                    i = rng.randrange(npts)
+                    qe[j], qn[j] = es[i], ns[i]
+                kind = "knn-query-at-data"
+            cs.append(mk_knn(es, ns, data, k, rng.choice(list(REDS)), qe, qn, shape2d, kind))
         elif u < 0.65:
             sh = [npts] if (npts % 2 or rng.random() < 0.6) else [2, npts // 2]
             cs.append(mk_md(es, ns, rng.randint(1, npts - 1), sh, "median_distance"))
@@ -140,7 +146,12 @@ def impl(case):
             return r.ravel().tolist()
         if fn == "md":
             es, ns, k, shape2d = a
-            r = vd.median_distance((C.mkarr(es, shape2d, "es:" + case["op"]), C.mkarr(ns, shape2d, "ns:" + case["op"])), k_nearest=k)
+            cm = (C.mkarr(es, shape2d, "es:" + case["op"]), C.mkarr(ns, shape2d, "ns:" + case["op"]))
+            if (len(es) + k) % 2:
+                # further coordinates (heights, times) are ignored: distances are horizontal
+                up = (np.arange(len(es), dtype=float) ** 2 * 37.0 - 500.0).reshape(shape2d)
+                cm = cm + (up,) + ((up[::-1].copy() * -0.5,) if len(es) % 3 == 0 else ())
+            r = vd.median_distance(cm, k_nearest=k)
             if list(r.shape) != list(shape2d):
                 raise RuntimeError("wrong output shape")
             return r.ravel().tolist()
